@@ -326,6 +326,7 @@ type Verifier struct {
 	resStack       [][]*types.Var
 	sweep          bool
 	caseLabel      string
+	notes          []string
 	freshLocal     map[*types.Var]bool
 	sliceRoot      map[*types.Var]*types.Var
 	inSplit        bool
